@@ -140,6 +140,15 @@ def cancel_kind(e):
     return "cancelled" if type(e) is JobCancelled else [k for k, v in dict.items(CANCEL) if type(e) is v][0]
 
 
+class HookBroken(Exception):
+    pass
+
+
+# what a failing hook raises: "every exception type deriving from Exception" (C15) — among them the ones a library is most likely to
+# treat specially (TypeError: wrong-arity shims; AttributeError / LookupError: duck typing; OSError; AssertionError; TimeoutError)
+HOOK_EXC = [RuntimeError, TypeError, KeyError, ValueError, AttributeError, HookBroken, OSError, AssertionError, TimeoutError, LookupError]
+
+
 def nth(lst, i, default):
     return lst[i] if 0 <= i < len(lst) else default
 
@@ -306,6 +315,10 @@ class World:
             return float("inf")
         if v == "-inf":
             return float("-inf")
+        if v == "huge":
+            return 1e300          # finite, far beyond what a timedelta can hold: still just a delay to be capped
+        if v == "-huge":
+            return -1e300
         return v * vclock.TICK
 
     def strategy_ctx(self, sid, ctx):
@@ -346,7 +359,7 @@ class World:
         if canc:
             raise self.remember(PLAIN_CANCEL[canc](), "CS", self.invocations)
         if nth(self.env["bs_raises"], idx, False):
-            raise RuntimeError("before_sleep hook failure")
+            raise HOOK_EXC[(idx + 2) % len(HOOK_EXC)]("before_sleep hook failure")
 
     async def before_sleep_async(self, who, ctx, sleep_s):
         idx, canc = self.bs_common(who, ctx, sleep_s)
@@ -359,7 +372,7 @@ class World:
         if self.variant.get("suspend_bs"):
             await Suspend()
         if nth(self.env["bs_raises"], idx, False):
-            raise ValueError("async before_sleep hook failure")
+            raise HOOK_EXC[(idx + 1) % len(HOOK_EXC)]("async before_sleep hook failure")
 
     def sleeper_common(self, who, s):
         i = self.cur_index()
@@ -404,7 +417,7 @@ class World:
         self.metrics += 1
         self.trace.append(["M", event, attempt, to_ticks(sleep_s), self.canon_tags(tags)])
         if nth(self.env["metric_raises"], idx, False):
-            raise RuntimeError("metric hook failure")
+            raise HOOK_EXC[idx % len(HOOK_EXC)]("metric hook failure")
 
     def on_log(self, event, fields):
         idx = self.logs
@@ -416,7 +429,7 @@ class World:
         self.trace.append(["L", event, attempt, to_ticks(sleep_s) if sleep_s != "missing" else "missing",
                            self.canon_tags(f), to_hint(ra)])
         if nth(self.env["log_raises"], idx, False):
-            raise KeyError("log hook failure")
+            raise HOOK_EXC[(idx + 3) % len(HOOK_EXC)]("log hook failure")
 
 
 class Shared:
@@ -667,6 +680,17 @@ def _fwd2(f, a, b):
     return f(a, b)
 
 
+class FalsyCallable:
+    def __init__(self, f):
+        self.f = f
+
+    def __call__(self, *a):
+        return self.f(*a)
+
+    def __len__(self):
+        return 0
+
+
 class CallableObj:
     def __init__(self, f):
         self.f = f
@@ -692,6 +716,11 @@ def call_kwargs(w, shared, mode, entry):
         kw["sleep"] = lambda ctx, s: w.handler("call", ctx, s)
     if cfg["bs_c"]:
         kw["before_sleep"] = shared.mk_bs("call", w.is_async)
+    if w.variant.get("falsy_hooks"):
+        # a per-call callback may be any callable object, also one whose truth value is False (an empty recorder with __len__)
+        for k in ("sleep", "before_sleep"):
+            if k in kw:
+                kw[k] = FalsyCallable(kw[k])
     if cfg["sleeper_c"]:
         kw["sleeper"] = shared.mk_sleeper("call", w.is_async)
     if mode == "execute" and cfg["capture_tl"]:
